@@ -21,7 +21,7 @@ def shape(name, nn, nd, dc, which, pad=0, tier="quick", timeout=1200):
              domain=LAT + "constructive oracle (q, r) exact", free_bits=free, fns=fns, role="c14::" + kern)
 
 
-PROBED_OK = set()   # kernel-shape harnesses that finished in a measured probe (name -> registered)
+PROBED_OK = {"div_2x1"}   # kernel-shape harnesses that finished in a measured probe (name -> registered)
 
 
 def harnesses():
@@ -42,9 +42,10 @@ def _all():
     out.append(H("c14_reciprocal_2", "C14", "c14::reciprocal_2", unwind=68, tier="thorough", timeout=3600,
                  inst="reciprocal_2(u128)", fns=["reciprocal_2"], free_bits=19,
                  domain="d1 = 1|row(8)|fill, d0 = pattern limb; oracle: defining inequality by shift-and-add"))
-    out.append(H("c14_div_2x1", "C14", "c14::div_2x1", unwind=3, tier="quick", timeout=1800, inst="div_2x1",
-                 fns=["div_2x1", "div_2x1_ref", "reciprocal"], free_bits=32,
-                 domain="d = 1|row(8)|fill|low(4); q pattern limb; r small or d-1-small; u = q*d + r"))
+    out.append(H("c14_div_2x1", "C14", "c14::div_2x1", unwind=3, tier="thorough", timeout=3600, inst="div_2x1",
+                 fns=["div_2x1", "reciprocal"], free_bits=20,
+                 domain="d = 1|row in {0,85,170,255}|fill|low(2); q pattern limb (8 free bits x 4 placements); r small or "
+                        "d-1-small; u = q*d + r built exactly (measured 632 s)"))
     out.append(H("c14_div_3x2", "C14", "c14::div_3x2", unwind=5, tier="quick", timeout=1800, inst="div_3x2",
                  fns=["div_3x2", "reciprocal_2"], free_bits=38,
                  domain="d1 = 1|row(8)|fill, d0 pattern limb; q pattern limb; r small or d-1-small; u = q*d + r"))
